@@ -466,6 +466,29 @@ def gen_bee_headers(rng, n):
     return cases
 
 
+def gen_history(rng, n):
+    """(object, operation history) cases: second export of one object, and export after a change vs a fresh object"""
+    cases = []
+    small = lambda cs: [c for c in cs if len(c["img"]) <= 3100]
+    for i in range(n):
+        oa = [c for c in small(gen_otfad_images(rng, 6)) if not c["overlap"] and c["base"] % 16 == 0][:2]
+        if len(oa) == 2:
+            fam = rng.choice(["mimxrt1176", "mimxrt1189", "mimx9352", "mimxrt685s"])
+            scr = rng.random() < 0.6
+            cases.append({"eng": "history", "kind": "otfad-nxp", "family": fam, "kek": rb(rng, 16),
+                          "mask": rng.getrandbits(32) if scr else -1, "align": rng.choice([0, 0x1B, 0xE4, 255]) if scr else -1,
+                          "A": oa[0], "B": oa[1]})
+            cases.append({"eng": "history", "kind": "otfad", "A": oa[0], "B": oa[1]})
+        ia = [c for c in small(gen_iee_images(rng, 8)) if c["base"] % 16 == 0 and c["unit"] == 4096][:2]
+        if len(ia) == 2:
+            cases.append({"eng": "history", "kind": "iee", "family": rng.choice(["mimxrt1176", "mimxrt1189"]), "A": ia[0], "B": ia[1]})
+        ba = [c for c in small(gen_bee_images(rng, 6)) if any(c["hs"])][:2]
+        if len(ba) == 2:
+            s = 1024 * rng.randrange(0, 1 << 20)
+            cases.append({"eng": "history", "kind": "bee", "A": ba[0], "B": ba[1], "fac": (s, 1024 * rng.randrange(1, 9), rng.randrange(4))})
+    return cases
+
+
 # ------------------------------------------------------------------------------------------------------------------
 # wire forms: implementation call(s) and model expression(s) of a case
 # ------------------------------------------------------------------------------------------------------------------
@@ -495,6 +518,20 @@ def impl_calls(c):
         return [[20, VL([bh_val(h) for h in c["hs"]]), VB(c["img"]), VI(c["base"])]]
     if e == "bee-header":
         return [[21, bh_val(c["h"])]]
+    if e == "history":
+        A, B, k = c["A"], c["B"], c["kind"]
+        if k == "otfad-nxp":
+            return [[30, vlib.VS(c["family"]), VB(c["kek"]), VI(c["mask"]), VI(c["align"]), VL([kb_val(b) for b in A["blobs"]]), VB(A["img"]),
+                     VI(A["base"]), VI(A["swap"]), VL([kb_val(b) for b in B["blobs"]]), VB(B["img"]), VI(B["base"])]]
+        if k == "otfad":
+            return [[31, VL([kb_val(b) for b in A["blobs"]]), VB(A["img"]), VI(A["base"]), VI(A["swap"]),
+                     VL([kb_val(b) for b in B["blobs"]]), VB(B["img"]), VI(B["base"])]]
+        if k == "iee":
+            return [[32, vlib.VS(c["family"]), VL([ib_val(b) for b in A["blobs"]]), VB(A["img"]), VI(A["base"]),
+                     VL([ib_val(b) for b in B["blobs"]]), VB(B["img"]), VI(B["base"])]]
+        if k == "bee":
+            return [[33, VL([bh_val(h) for h in A["hs"]]), VB(A["img"]), VI(A["base"]), VB(B["img"]), VI(B["base"]),
+                     VL([VI(x) for x in c["fac"]])]]
     raise ValueError(e)
 
 
@@ -603,6 +640,8 @@ def model_exprs(c, res):
             else:
                 want = ("l", [])
             out.append((f"run_case 23 {lit(VB(c['h']['swkey']), VB(res[0][1]))}", want))
+    elif e == "history":
+        pass                                         # oracle on the implementation only
     else:
         raise ValueError(e)
     return out
@@ -860,7 +899,40 @@ def oracle_bee_header(c, res):
     return []
 
 
-ORACLES = {"otfad": oracle_otfad_image, "otfad-blob": oracle_otfad_blob, "iee": oracle_iee_image, "iee-table": oracle_iee_table,
+HISTORY_OPS = {
+    "otfad-nxp": ["o = OtfadNxp(family, kek, key_blobs=A.blobs, scramble, binaries=tree(A.img @ A.base))",
+                  "first = [export_image(join_sub_images=False), export_image().export(), binary_image().export(), encrypt_key_blobs(), get_key_blobs()]",
+                  "second = the same five calls on o again   -> must equal first",
+                  "o[i] = KeyBlob(B.blobs[i]) for every i; o.binaries = tree(B.img @ B.base)",
+                  "the five calls on o   -> must equal the five calls on a fresh OtfadNxp built with B"],
+    "otfad": ["o = Otfad(); add_key_blob(A.blobs)", "e1 = o.encrypt_image(A.img, A.base)", "e2 = o.encrypt_image(B.img, B.base)   -> must equal a fresh Otfad's",
+              "e3 = o.encrypt_image(A.img, A.base)   -> must equal e1", "o.add_key_blob(B.blobs); encrypt_image / encrypt_key_blobs   -> must equal a fresh Otfad with A.blobs + B.blobs"],
+    "iee": ["o = IeeNxp(family, 0, ibkek1, ibkek2, key_blobs=A.blobs, binaries=tree(A.img @ A.base))",
+            "first = [export_image(), export_key_blobs(), get_key_blobs(), binary_image().export()]; second = the same on o again   -> must equal first",
+            "o[0] = B.blobs[0]; o.add_key_blob(B.blobs[1]); o.binaries = tree(B.img @ B.base)", "the four calls on o   -> must equal those of a fresh IeeNxp with the new settings"],
+    "bee": ["o = BeeNxp(A.headers, A.img, A.base)", "first = [export_image(), export_headers()]; second = the same on o again   -> must equal first",
+            "o.input_image, o.base_address = B.img, B.base; o.headers[i].add_fac(extra FAC)", "the two calls on o   -> must equal those of a fresh BeeNxp with the new settings"],
+}
+
+
+def oracle_history(c, res):
+    """a second export of one object is an export: it must be byte-identical to the first; after a change made through the
+    public API the export must equal that of a fresh object with the new settings"""
+    r = res[0]
+    if r[0] != "l":
+        return [(f"history:crash:{c['kind']}", f"history scenario failed as a whole: {r[:3]}")]
+    out = []
+    for item in r[1]:
+        kind, what, a, b = item[1][0][1], item[1][1][1], item[1][2][1], item[1][3][1]
+        if a != b:
+            sig = ("history:second-export-differs:" if kind == 0 else "history:stale-after-change:") + what
+            d = next((i for i in range(min(len(a), len(b))) if a[i] != b[i]), min(len(a), len(b)))
+            out.append((sig, f"{what}: {'second call on the same object' if kind == 0 else 'call after a change vs fresh object'} "
+                             f"differs (lengths {len(a)}/{len(b)}, first difference at byte {d}; {a[:24]!r} vs {b[:24]!r})"))
+    return out
+
+
+ORACLES = {"history": oracle_history, "otfad": oracle_otfad_image, "otfad-blob": oracle_otfad_blob, "iee": oracle_iee_image, "iee-table": oracle_iee_table,
            "bee": oracle_bee_image, "bee-header": oracle_bee_header}
 
 
@@ -913,6 +985,7 @@ def run(tier):
         "IEE key blobs (IeeNxp.export_key_blobs, plain_data)": gen_iee_tables(rng, 50 * f),
         "BEE images (BeeNxp.export_image)": gen_bee_images(rng, 60 * f),
         "BEE region headers (BeeRegionHeader.export)": gen_bee_headers(rng, 60 * f),
+        "object histories (second export; export after a change vs fresh object)": gen_history(rng, 5 * f),
     }
     only = os.environ.get("C13_STREAMS")          # development aid: restrict to streams whose name contains this text
     if only:
@@ -948,7 +1021,8 @@ def run(tier):
         for sig, msg in hits:
             nviol[sig] = nviol.get(sig, 0) + 1
             rep.failing(sig, "implementation violates C13: " + msg,
-                        {"kind": "impl-oracle", "case": short(c), "impl_result": [list(r[:2]) if r[0] == "e" else
+                        {"kind": "impl-oracle", "case": short(c), "operations": HISTORY_OPS.get(c.get("kind")) if c["eng"] == "history" else None,
+                         "impl_result": [list(r[:2]) if r[0] == "e" else
                                                                                    (r[1].hex() if r[0] == "b" else str(r)[:2000]) for r in res]})
     # (T2) correspondence
     ndis, nspec, nrepaired = 0, 0, 0
@@ -963,10 +1037,10 @@ def run(tier):
             order = sorted(range(len(exprs)), key=lambda k: -len(exprs[k]))
             nsh = max(1, min(64, len(exprs) // 6))
             per = (len(exprs) + nsh - 1) // nsh
-            shards = [order[sh_::nsh] for sh_ in range(nsh)]
+            shards = [sh_ for sh_ in (order[k_::nsh] for k_ in range(nsh)) if sh_]
             # run_model_cases cuts consecutive runs of `shard` expressions; give it equal-length runs by two calls
             big = [sh_ for sh_ in shards if len(sh_) == per]
-            small = [sh_ for sh_ in shards if len(sh_) != per]
+            small = [sh_ for sh_ in shards if len(sh_) != per]   # (no expressions at all: both empty)
             res_by_idx = {}
             for tag, group in (("c13a", big), ("c13b", small)):
                 if not group:
